@@ -389,6 +389,8 @@ def observe(xform: str, root_name: str) -> dict:
         "stray": stray,
         # children of the generated meta group, in document order ([] when there is no meta element)
         "meta_kids": meta_kids,
+        # what C19 itself demands of the meta block: the declaration is there iff declared, as the last child
+        "meta_entity": [meta_kids.count("entity"), meta_kids[-1:] == ["entity"]],
     }
 
 
@@ -413,11 +415,14 @@ def canon_out(o: dict) -> dict:
         "custom_ns": [list(p) for p in o.get("customNs", [])],
         "stray": [],
         "meta_kids": list(o.get("metaKids", [])),
+        "meta_entity": [list(o.get("metaKids", [])).count("entity"), list(o.get("metaKids", []))[-1:] == ["entity"]],
     }
 
 
-KEYS = ("entity", "nodes", "saveto", "version", "xmlns", "stray", "meta_kids")
-MODEL_KEYS = KEYS + ("custom_ns",)
+KEYS = ("entity", "nodes", "saveto", "version", "xmlns", "stray", "meta_entity")
+# the other meta children (audit / instanceID / instanceName: C04, C11) and the custom namespaces (C11) are compared with
+# the model only
+MODEL_KEYS = KEYS + ("custom_ns", "meta_kids")
 
 
 def diff(a: dict, b: dict, keys=KEYS) -> list[str]:
